@@ -51,6 +51,8 @@ class Skeleton:
         for b in lib.facts["bodies"]:
             if not b["def"].startswith(P) or b["kind"] != "Fn" or "::{" in b["def"]:
                 continue
+            if hir.base_path(b["def"]) in ctx.inline_helpers(lib):
+                continue      # evaluated in place at its call sites, not a node of the skeleton
             ret = b.get("ret", "")
             kind = None
             if ret.startswith("core::result::Result<(&"):
@@ -75,7 +77,10 @@ class Skeleton:
     def cls_of(self, pred_term, ps):
         if pred_term[0] == "closure":
             node = ps.closures.get(pred_term[1])
-            return bytecls.denote_closure(node, self.lib) if node is not None else None
+            cap = {}
+            if len(pred_term) > 2:
+                cap = {i: v[2] for (i, v) in pred_term[2] if isinstance(v[2], (int, bool))}
+            return bytecls.denote_closure(node, self.lib, cap) if node is not None else None
         if pred_term[0] == "fn":
             return bytecls.denote_fn(self.lib, pred_term[1])
         return None
@@ -163,6 +168,8 @@ class Skeleton:
                     nt = True
             for e in x.effects:
                 if e[0] == "index" and self.data_driven(e[2]):
+                    nt = True
+                if e[0] == "call" and e[1].endswith("::split_at") and len(e[2]) == 2 and self.data_driven(("struct", "RangeTo", (("end", e[2][1]),))):
                     nt = True
             v = self.exit_result(x)
             if v is None:
@@ -264,6 +271,14 @@ class Skeleton:
                 tag = "strict" if self.attr(pid)["strict"] else "weak"
             rest = self.chain(src, inp, x, ps, depth + 1)
             return None if rest is None else rest + [(tag, pid, t)]
+        if rem[0] == "tproj" and rem[2] == 1 and rem[1][0] == "call" and rem[1][1].endswith("::split_at") and len(rem[1][2]) == 2:
+            # x.split_at(k).1 is the tail of x
+            k = rem[1][2][1]
+            tag = "slice"
+            if (k[0] == "lit" and isinstance(k[2], int) and k[2] >= 1) or (k[0] == "bin" and k[1] == "Add" and ("lit", "int", 1) in (k[2], k[3])):
+                tag = "strict"
+            rest = self.chain(rem[1][2][0], inp, x, ps, depth + 1)
+            return None if rest is None else rest + [(tag, ("slice", "split_at " + show_term(k)))]
         if rem[0] == "index":
             r = rem[2]
             if r[0] == "struct" and r[1].endswith("RangeFrom"):
@@ -372,8 +387,8 @@ class Skeleton:
                         if self.app(("call",) + tuple(e[1:]), f["ps"]) is not None:
                             continue
                         nm = e[1].split("::")[-1]
-                        if nm in ("len",) or e[1] in self.fns:
-                            continue
+                        if nm in ("len", "is_empty", "split_at", "split_at_checked") or e[1] in self.fns:
+                            continue   # span arithmetic, end-of-input tests (judged by C12-I) and slicing are not peeks at bytes
                         for a in e[2]:
                             if self._is_input_slice(a, f, x):
                                 out[(path, e[3])] = (path, e[1], e[3], show_term(a))
